@@ -187,29 +187,41 @@ def main():
     # ---------------- beams ----------------
     for et in (["SEG2", "SEG3"] if not thorough else ["SEG2", "SEG3", "SEG4"]):
         for timo in (False, True):
-            for bdim in (2, 3):
+            for bdim, variant in ((2, "rotation"), (3, "rotation"), (2, "rotation, default yAxis"), (2, "reflection"), (3, "reflection")):
                 L = 4.0
                 sect = Mesher().Mesh_2D(Domain(Point(), Point(0.5, 0.25)))
-                Q = rodrigues((0, 0, 1), rng.random() * 5 + 0.3) if bdim == 2 else rodrigues((rng.randint(1, 3), rng.randint(-3, 3), rng.randint(-3, 3)), rng.random() * 5 + 0.3)
+                if variant == "reflection":
+                    nrm = (rng.randint(1, 3), rng.randint(-3, 3), 0) if bdim == 2 else (rng.randint(1, 3), rng.randint(-3, 3), rng.randint(-3, 3))
+                    Q = reflection(nrm)
+                elif bdim == 2:
+                    ang = rng.random() * 5 + 0.3
+                    if variant.endswith("default yAxis"):
+                        # any inclination, also members drawn right to left; keep away from the vertical (yAxis collinear with the member)
+                        ang = rng.choice([0.6, 2.3, 2.6, 3.14159, 3.8, 4.2, 5.6])
+                    Q = rodrigues((0, 0, 1), ang)
+                else:
+                    Q = rodrigues((rng.randint(1, 3), rng.randint(-3, 3), rng.randint(-3, 3)), rng.random() * 5 + 0.3)
+                detQ = float(np.sign(np.linalg.det(Q)))
                 off = np.array([0.5, -0.25, 0.75 if bdim == 3 else 0.0])
                 f = np.array([rng.randint(-4, 4) / 4, rng.randint(1, 4) / 4, rng.randint(-4, 4) / 4 if bdim == 3 else 0.0])
                 mom = np.array([rng.randint(-4, 4) / 8 if bdim == 3 else 0.0, rng.randint(-4, 4) / 8 if bdim == 3 else 0.0, rng.randint(1, 4) / 8])
                 sols = []
-                ident = dict(beam=et, timoshenko=timo, dim=bdim, Q=Q.tolist(), force=f.tolist(), moment=mom.tolist())
+                ident = dict(beam=et, timoshenko=timo, dim=bdim, variant=variant, Q=Q.tolist(), force=f.tolist(), moment=mom.tolist())
                 try:
                     for moved in (False, True):
                         Qm = Q if moved else np.eye(3)
+                        dm = detQ if moved else 1.0
                         pA = off if not moved else Q @ off
                         pB = pA + Qm @ np.array([L, 0, 0])
-                        yAxis = tuple(Qm @ np.array([0.0, 1.0, 0.0]))
+                        yAxis = (0.0, 1.0, 0.0) if variant.endswith("default yAxis") else tuple(Qm @ np.array([0.0, 1.0, 0.0]))
                         beams = [Models.Beam.Isotropic(bdim, Line(Point(*pA), Point(*pB), L / 3), sect, 1000.0, 0.25, yAxis)]
                         mesh = Mesher().Mesh_Beams(beams, elemType=ElemType(et))
                         s = Simulations.Beam(mesh, Models.Beam.BeamStructure(beams), useTimoshenko=timo)
                         nA, nB = mesh.Nodes_Point(Point(*pA)), mesh.Nodes_Point(Point(*pB))
-                        fq, mq = Qm @ f, Qm @ mom
+                        fq, mq = Qm @ f, dm * (Qm @ mom)          # a moment is a pseudo-vector
                         if bdim == 2:
                             s.add_dirichlet(nA, [0, 0, 0], ["x", "y", "rz"])
-                            s.add_neumann(nB, [fq[0], fq[1], mom[2]], ["x", "y", "rz"])
+                            s.add_neumann(nB, [fq[0], fq[1], dm * mom[2]], ["x", "y", "rz"])
                             s.add_lineLoad(mesh.nodes, [float(0.5 * fq[0]), float(0.5 * fq[1])], ["x", "y"])
                         else:
                             s.add_dirichlet(nA, [0] * 6, ["x", "y", "z", "rx", "ry", "rz"])
@@ -222,15 +234,15 @@ def main():
                     res.fail(f"moved beam raises timo={timo} dim={bdim}", f"{type(ex).__name__}: {str(ex)[:150]}", ident)
                     continue
                 u0, u1 = sols
-                res.case(("beam", et, timo, bdim))
-                res.count("beam")
+                res.case(("beam", et, timo, bdim, variant))
+                res.count("beam:" + variant)
                 if bdim == 2:
-                    want = np.c_[u0[:, :2] @ Q[:2, :2].T, u0[:, 2]]
+                    want = np.c_[u0[:, :2] @ Q[:2, :2].T, detQ * u0[:, 2]]
                 else:
-                    want = np.c_[u0[:, :3] @ Q.T, u0[:, 3:] @ Q.T]
+                    want = np.c_[u0[:, :3] @ Q.T, detQ * (u0[:, 3:] @ Q.T)]
                 err = np.abs(u1 - want).max() / (1e-30 + np.abs(want).max())
                 if err > 1e-7:
-                    res.fail(f"beam frame indifference timo={timo} dim={bdim} elem={et}", f"response of the inclined member differs from the rotated response by {err:.2e} (relative)", ident)
+                    res.fail(f"beam frame indifference timo={timo} dim={bdim} elem={et} {variant}", f"response of the moved member ({variant}) differs from the transformed response by {err:.2e} (relative)", ident)
 
     answers = driver.ask(lines)
     if answers is None:
